@@ -272,6 +272,17 @@ func streamScope(o *Out, r *rand.Rand, n int, thorough bool) {
 		{"ts = make([]int64, 3)\nts[0] = 5\nts[1] = 6\nts[2] = 7\nseen = []\nfor i in ts {\nseen += i\ndelete(\"i\")\n}\nprobe(seen)", vals.Encode([]interface{}{int64(5), int64(6), int64(7)})},
 	}
 	closureCases = append(closureCases, []struct{ src, want string }{
+		// `_` is a name like any other: assignment updates the nearest binding or creates one, reads see it
+		{"_ = 1\nprobe(_)", vals.Encode(int64(1))},
+		{"func f(_) {\n_ = 2\nreturn _\n}\nprobe(f(1))", vals.Encode(int64(2))},
+		{"var _ = 1\nfunc() { _ = 7 }()\nprobe(_)", vals.Encode(int64(7))},
+		{"_ = 0\nfor _ in [1, 2] {\n}\n_, k = [5, 6]\n_++\nprobe([_, k])", vals.Encode([]interface{}{int64(6), int64(6)})},
+		{"_ = \"outer\"\nget = func() { return _ }\nif true {\n_ = \"set in block\"\n}\nprobe(get())", vals.Encode("set in block")},
+		// a type bound under the name of a builtin type is a binding like any other: the nearest one is meant
+		{"make(type int64, \"text\")\nprobe(make(int64))", vals.Encode("")},
+		{"func f() {\nmake(type string, 1)\nreturn make(string)\n}\nprobe([f(), make(string)])", vals.Encode([]interface{}{int64(0), ""})},
+		{"make(type bool, 1.5)\nmk = func() { return make([]bool, 1) }\nprobe(mk()[0])", vals.Encode(float64(0))},
+		{"if true {\nmake(type float64, \"s\")\nprobe(make(float64))\n}\nprobe(make(float64))", vals.Encode(float64(0))},
 		// delete(name, true) removes the NEAREST binding only: the name then refers to the enclosing binding again
 		{"x = \"global\"\nfunc f() {\nvar x = \"local\"\ndelete(\"x\", true)\nreturn x\n}\nprobe([f(), x])", vals.Encode([]interface{}{"global", "global"})},
 		{"x = 1\nfunc f() {\nvar x = 2\nif true {\nvar x = 3\ndelete(\"x\", true)\nreturn x\n}\n}\nprobe([f(), x])", vals.Encode([]interface{}{int64(2), int64(1)})},
@@ -291,12 +302,13 @@ func streamScope(o *Out, r *rand.Rand, n int, thorough bool) {
 		_ = base.Define("who", "outer")
 		_ = base.Define("only_outer", "outer-only")
 		_ = base.DefineType("Kind", int64(0))
+		_ = base.DefineType("uint32", "") // the host binds a type under a builtin name
 		session := base.NewEnv()
 		session.SetExternalLookup(scopeLookup{vals: map[string]interface{}{"who": "external", "only_ext": "ext-only"}, types: map[string]reflect.Type{"Kind": reflect.TypeOf("")}})
 		for _, c := range []struct{ src, want string }{
 			{"who", "external"}, {"func f() { return who }\nf()", "external"}, {"x = nil\nif true {\nfor i in [1] {\nx = who\n}\n}\nx", "external"},
 			{"g = func() { return func() { return who } }\ng()()", "external"}, {"only_outer", "outer-only"}, {"only_ext", "ext-only"},
-			{"module m {\nfunc get() { return who }\n}\nm.get()", "external"}, {"typeOf(make(Kind))", "string"}, {"func mk() { return typeOf(make(Kind)) }\nmk()", "string"},
+			{"module m {\nfunc get() { return who }\n}\nm.get()", "external"}, {"typeOf(make(Kind))", "string"}, {"typeOf(make(uint32))", "string"}, {"func mk() { return typeOf(make([]uint32, 1)[0]) }\nmk()", "string"}, {"func mk() { return typeOf(make(Kind)) }\nmk()", "string"},
 		} {
 			e := session.NewEnv()
 			core.Import(e)
